@@ -1,1 +1,2 @@
 import Depccg.Props.SearchBasics
+import Depccg.Props.SearchNBest
